@@ -315,7 +315,20 @@ def r3_fifo(ctx, F):
         cs, _ = arm_calls(F, b, swb, 'Ordered')
         rm = [c for c in cs if c.is_('VecDeque::remove', 'VecDeque::pop_front')]
         whole = [c for c in cs if c.is_('OccupiedEntry::remove', 'BTreeMap::remove')]
-        ctx.check(len(rm) == 1 and len(whole) == 1, rule, 'ordered-%s-removes-one' % fn, b,
+        # exactly one removal on every path (the sites may be alternatives: `pop_front()` for the head, `remove(i)`
+        # otherwise; `whole` when the flow would become empty): no path passes two of them, none avoids all
+        sites = [c.bb for c in rm + whole]
+        entry = swb.edges_for('Ordered')
+        one_each = bool(rm) and bool(whole) and bool(entry)
+        if one_each:
+            for x in sites:
+                after = b.reach([b.call_at(x).target] if b.call_at(x).target is not None else [])
+                if any(y in after for y in sites):
+                    one_each = False              # a second removal can follow
+            r0 = b.reach([e[1] for e in entry], cut_blocks=sites)
+            if any(x in r0 for x in b.returns):
+                one_each = False                  # a path removes nothing
+        ctx.check((len(rm) == 1 and len(whole) == 1) or one_each, rule, 'ordered-%s-removes-one' % fn, b,
                   good='%s removes one message, dropping the flow when it becomes empty' % fn,
                   bad='Network::%s on Ordered does not remove exactly one message (flow removal sites %d, '
                       'element removal sites %d)' % (fn, len(whole), len(rm)))
